@@ -30,6 +30,19 @@ def unit(f):
                             preamble=bu + " broadcast use lemma_bytes_inj;",
                             subst=[("R6", r'\s*==\s*\*bytes\b', '.arr_eq(bytes)')]))
     I(main, f"impl {F}", Fn("to_bytes", ensures="bytes_val(r@) == self.val()", props=("C11",), preamble=bu))
+    # reduction of byte strings of ANY length (Horner over N_8-byte chunks, last chunk first); R25 desugars the chain
+    W_ = pow(2, 8 * n8, fp["P"])
+    I(main, f"impl {F}", Fn(
+        "from_le_bytes_mod_order", props=("C11", "C07"),
+        ensures=f"r.val() == bytes_val(bytes@) % {P}",
+        preamble=bu + f" broadcast use lemma_pad_zero, lemma_chunks_cover; proof {{ lemma_pw256_n8(); }}",
+        subst=[("R6", r'(\w+)\[\s*\.\.\s*(\w+)\.len\(\)\s*\]\.copy_from_slice\(\s*\2\s*\)', r'copy_prefix(&mut \1, \2)')],
+        loops={0: f"""invariant chunk_n_ == {n8}, src_@ == bytes@, 0 <= k_ as int <= chunks_len_spec(src_@.len() as int, {n8}),
+                        acc_.val() == bytes_val(src_@.subrange(imin(k_ as int * {n8}, src_@.len() as int), src_@.len() as int)) % {P},
+                    decreases k_"""},
+        loops_begin={0: f"broadcast use {f}_abs, lemma_pad_zero, lemma_bytes_val_bound;"},
+        loops_end={0: f"lemma_pw256_n8(); lemma_chunk_step({P}, src_@, {n8}, k_ as int, acc0_.val(), xm_.val(), acc_.val(), {W_}int);"},
+        before_tail="assert(src_@.subrange(0, src_@.len() as int) =~= src_@);"))
     if f == "fq":
         S_ = "exp.as_ref_spec()@"
         J_ = "(it.index@ as int)"
@@ -63,6 +76,9 @@ def unit(f):
                   ensures=f"match r {{ Some(v) => limbs_val(repr.0@) < {P} && v.val() == limbs_val(repr.0@), None => limbs_val(repr.0@) >= {P} }}"),
       header_out=f"impl {F}")
     I(ark, hp, Fn("into_bigint", props=("C11",), preamble=bu, ensures="limbs_val(r.0@) == self.val()"), header_out=f"impl {F}")
+    I(ark, hp, Fn("from_be_bytes_mod_order", props=("C11",), preamble=bu, ensures=f"r.val() == bytes_val_be(bytes@) % {P}",
+                  subst=[("R6", r'from_le_bytes_mod_order\(&(\w+)\)', r'from_le_bytes_mod_order(\1.as_slice())')]),
+      header_out=f"impl {F}")
     hz = f"impl Zero for {F}"
     I(ark, hz, Fn("zero", ensures="r.val() == 0", props=("C10", "C11"), preamble=bu), header_out=f"impl {F}")
     I(ark, hz, Fn("is_zero", ensures="r == (self.val() == 0)", props=("C10", "C11"), preamble=bu), header_out=f"impl {F}")
@@ -74,8 +90,10 @@ def unit(f):
       )
     u = Unit(name=f"fieldx_{f}",
              preludes=[("common.rs", None), ("field_consts.rs", dict(NW=fp["N64"])), ("field_abs.rs", None), ("std_standins.rs", None),
-                       ("le_lemmas.rs", None), ("ark_bigint.rs", None), ("ladder_lemmas.rs", None), ("pow_lemmas.rs", None)],
-             items=items, lemmas=lem + FX_LEMMAS, params=fp,
+                       ("le_lemmas.rs", None), ("ark_bigint.rs", None), ("ladder_lemmas.rs", None), ("pow_lemmas.rs", None), ("chunk_lemmas.rs", None)],
+             items=items, lemmas=lem + FX_LEMMAS + f"""
+pub proof fn lemma_pw256_n8() ensures pw256({n8}) % {P} == {W_}int {{ assert(pw256({n8}) % {fp["P"]}int == {W_}int) by(compute_only); }}
+""", params=fp,
              global_subst=[("R7", r'\bark_ff::BigInt\(', 'BigInt('), ("R7", r'\bSelf::BigInt\b', 'BigInt')])
     u.raw = [("src/error.rs", "enum", "EncodingError")]
     u.ufcs_fns = ("power",)
